@@ -5,8 +5,17 @@ fn main() {
     for f in args {
         let text = std::fs::read_to_string(&f).expect("read script");
         let acts = script::parse(&text);
-        let (obs, mon) = run_script(&acts);
-        std::fs::write(format!("{f}.obs"), obs).unwrap();
-        std::fs::write(format!("{f}.mon"), mon.join("\n")).unwrap();
+        // a crash of the harness itself on one script must not take the others down
+        let r = std::panic::catch_unwind(|| run_script(&acts));
+        match r {
+            Ok((obs, mon)) => {
+                std::fs::write(format!("{f}.obs"), obs).unwrap();
+                std::fs::write(format!("{f}.mon"), mon.join("\n")).unwrap();
+            }
+            Err(_) => {
+                std::fs::write(format!("{f}.obs"), "R 1\nCRASH the harness or the library panicked outside an actor task\nE\n").unwrap();
+                std::fs::write(format!("{f}.mon"), "CRASH director panicked on this script").unwrap();
+            }
+        }
     }
 }
